@@ -211,7 +211,9 @@ func checkC06(p *Program, r *Report) {
 	// len(D.Bytes()) == 32 test refuses every key with a leading zero byte)
 	if nw := p.Func("", "NewWIF"); nw != nil {
 		r.Analysed(FnName(nw))
-		refusesOnlyFor(p, r, "C06.total", nw, func(pa *ssa.Parameter) bool { return isNamed(derefType(pa.Type()), "github.com/gcash/bchd/chaincfg", "Params") }, "the network argument")
+		refusesOnlyFor(p, r, "C06.total", nw, func(pa *ssa.Parameter) bool {
+			return isNamed(derefType(pa.Type()), "github.com/gcash/bchd/chaincfg", "Params")
+		}, "the network argument")
 		nret := 0
 		for _, ap := range acceptPoints(nw) {
 			_ = ap
